@@ -208,6 +208,11 @@ func (e *Engine) contractFor(f *types.Func) *Contract {
 	if c, ok := e.db.Contracts[externKey(f)]; ok {
 		return c
 	}
+	if f.Pkg() != nil && e.db.PurePkgs[f.Pkg().Path()] {
+		c := &Contract{Key: externKey(f), Extern: true, Pure: true, Trusted: true, NoPanic: true, Loops: map[string][]*SpecExpr{}, Opts: map[string]string{}}
+		e.db.Contracts[externKey(f)] = c
+		return c
+	}
 	return nil
 }
 
